@@ -142,7 +142,20 @@ type xorCompressor struct {
 	wrote bool
 }
 
+// AlgGate, when set, is called inside the custom algorithm's methods: under
+// the controlled scheduler they are yield points in "user code", so that the
+// library's handling of pooled compressors / decompressors is interleaved with
+// their use by another call.
+var AlgGate func(string)
+
+func algYield(label string) {
+	if g := AlgGate; g != nil {
+		g(label)
+	}
+}
+
 func (x *xorCompressor) Write(p []byte) (int, error) {
+	algYield("xor.write")
 	if !x.wrote {
 		x.wrote = true
 		if _, err := x.w.Write([]byte{x.magic}); err != nil {
@@ -167,15 +180,20 @@ func (x *xorCompressor) Close() error {
 	}
 	return nil
 }
-func (x *xorCompressor) Reset(w io.Writer) { x.w = w; x.wrote = false }
+func (x *xorCompressor) Reset(w io.Writer) { algYield("xor.creset"); x.w = w; x.wrote = false }
 
 type xorDecompressor struct {
 	magic   byte
 	r       io.Reader
 	started bool
+	// strict: Reset consumes and checks the magic at once (as gzip and zlib
+	// readers parse their header in Reset), so resetting to an empty source
+	// fails with io.ErrUnexpectedEOF
+	strict bool
 }
 
 func (x *xorDecompressor) Read(p []byte) (int, error) {
+	algYield("xor.read")
 	if x.r == nil {
 		return 0, io.EOF
 	}
@@ -198,16 +216,31 @@ func (x *xorDecompressor) Read(p []byte) (int, error) {
 	}
 	return n, err
 }
-func (x *xorDecompressor) Close() error { return nil }
+func (x *xorDecompressor) Close() error { algYield("xor.close"); return nil }
 func (x *xorDecompressor) Reset(r io.Reader) error {
+	algYield("xor.reset")
 	x.r = r
 	x.started = false
+	if x.strict {
+		var m [1]byte
+		if _, err := io.ReadFull(r, m[:]); err != nil {
+			if err == io.EOF {
+				return io.ErrUnexpectedEOF
+			}
+			return err
+		}
+		if m[0] != x.magic {
+			return fmt.Errorf("xor%02x: bad magic %02x", x.magic, m[0])
+		}
+		x.started = true
+	}
 	return nil
 }
 
 // XorAlg returns constructors for the custom algorithm with the given magic.
 func XorAlg(magic byte) (func() connect.Decompressor, func() connect.Compressor) {
-	return func() connect.Decompressor { return &xorDecompressor{magic: magic} },
+	// the algorithm with magic 0xA2 parses its header eagerly (see strict)
+	return func() connect.Decompressor { return &xorDecompressor{magic: magic, strict: magic == 0xA2} },
 		func() connect.Compressor { return &xorCompressor{magic: magic} }
 }
 
